@@ -493,6 +493,8 @@ def build_graph(ctx, source_kwargs, late=None):
     # feedback edges (guarded by unique in the generated templates): connected after construction
     for fb in sc.get('feedback', []):
         N[fb['from']].connect(N[fb['to']])
+    for u, v in sc.get('reconnect', []):
+        N[u].connect(N[v])
     if sc.get('start_leaves') and not sc.get('feedback') and not any(n['op'] == 'external' for n in sc['graph']):
         # the usual idiom  p = source...sink(f); p.start() : start() travels upstream through every node;
         # for nodes that are not sources it must change nothing
